@@ -181,9 +181,28 @@ func ApplySchemas(w *World, schemas []string, prop string) {
 				names = append(names, n)
 			}
 			sort.Strings(names)
+			// members: functions that may change lock state, and (transitively) their callers,
+			// which must establish "no lock held" before calling them
+			member := map[*ssa.Function]bool{}
+			for _, f := range w.FnAll {
+				if w.modsets[f]["X$_$locked"] {
+					member[f] = true
+				}
+			}
+			for changed := true; changed; {
+				changed = false
+				for g := range member {
+					for _, f := range w.callers[g] {
+						if !member[f] {
+							member[f] = true
+							changed = true
+						}
+					}
+				}
+			}
 			for _, n := range names {
 				f := w.Fns[n]
-				if !w.modsets[f]["X$_$locked"] {
+				if !member[f] {
 					continue
 				}
 				if ct := w.Spec.Contracts[n]; ct != nil && ct.Trusted {
